@@ -78,8 +78,8 @@ def skeletons(run, harness):
     write_ndjson(cpath, cases)
     events = record(run, harness, [["eval-file", cpath, "@OUT"]])
     for e in events:
-        if e["ev"] != "Eval":
-            raise ToolError("environment skeleton does not compile: %s" % json.dumps(e)[:500])
+        if e["ev"] != "Eval":     # skeletons are well-typed programs: rejection or a compiler panic is an observation about the compiler
+            run.fail("skeleton-compile:" + sha(e.get("src", "")), "environment skeleton is rejected or crashes the compiler: %s" % json.dumps(e)[:600], {"id": e.get("id"), "src": e.get("src"), "inputs": [], "observed": e.get("msg")})
     judge(run, events)
 
 
